@@ -25,7 +25,10 @@ Mk(st, lvl) ==
    certTime |-> IF st.scheme = "x509" /\ "T1" \in Range(st.listed) THEN "invalid" ELSE "valid",
    rev |-> "ok", plugin |-> "none", verdictTI |-> "success", verdictREV |-> "success", crit |-> "none"]
 
-InputSpace == {Mk(st, lvl) : st \in StoreSpace, lvl \in Levels}
+(* blob verification: the statement is chosen by name; under a name no statement has, nothing is trusted - although the
+   document's GLOBAL statement lists the very same stores (single-store lists only) *)
+BlobSpace == {[Mk(st, lvl) EXCEPT !.api = "VerifyBlob", !.sel = sl] : st \in {x \in StoreSpace : Len(x.listed) = 1 /\ x.other = ""}, lvl \in Levels, sl \in {"ok", "nopolicy"}}
+InputSpace == {Mk(st, lvl) : st \in StoreSpace, lvl \in Levels} \cup BlobSpace
 
 Init == s \in {Start(in) : in \in InputSpace}
 Next == s.pc # "done" /\ s' = StepFn(s)
@@ -37,15 +40,16 @@ AuthRes(t) == {t.results[i].failed : i \in {j \in 1..Len(t.results) : t.results[
 (* authenticity passes only if a chain certificate sits in a listed store of the wanted type; a listed wanted store that
    cannot be loaded makes it fail *)
 Inv_C03 == Done =>
-  /\ AuthRes(s) = {~D_AuthenticityPasses(s.in.stores)}
-  /\ (D_LoadError(s.in.stores) => AuthRes(s) = {TRUE})
+  /\ (s.in.sel = "nopolicy" => s.verdict = "fail" /\ AuthRes(s) = {})          \* no statement, no trust
+  /\ (s.in.sel = "ok" => AuthRes(s) = {~D_AuthenticityPasses(s.in.stores)})
+  /\ (s.in.sel = "ok" /\ D_LoadError(s.in.stores) => AuthRes(s) = {TRUE})
   /\ (F_anchor(s.in) = "found" <=> D_AuthenticityPasses(s.in.stores))
 (* stores of another type, tsa stores, unlisted stores and the other statement's store never matter *)
 Inv_C03_Frame == s.pc = "select" =>
   LET st == s.in.stores IN
   \A r \in StoreRefs \ ListedWanted(st) : \A c \in Contents :
      StoresAnchor([st EXCEPT !.contents[r] = c]) = StoresAnchor(st)
-Inv_Exact == Done => (s.verdict = "success" <=> Accept(s.in))
+Inv_Exact == Done => (s.verdict = "success" <=> (s.in.sel = "ok" /\ Accept(s.in)))
 
 NonTrivial(in) == F_anchor(in) # "found" \/ \E r \in StoreRefs \ ListedWanted(in.stores) : in.stores.contents[r] \in ChainAtoms
 Inv_Emit == (Emit /\ Done) => PrintT("CASE " \o ToJson([in |-> s.in, exp |-> Obs(s), why |-> s.why, nt |-> NonTrivial(s.in)]))
